@@ -420,6 +420,24 @@ func genSetExpr(r *Rng, literal bool) string {
 		}
 		parts = append(parts, b.String())
 	}
+	if !literal && r.Chance(8) {
+		// a value missing at the very end of the input, below a list index: the parser returns io.EOF
+		// through listItem, whose error paths leave in-place writes to existing elements visible
+		var b strings.Builder
+		b.WriteString(Pick(r, []string{"a", "b", "c"}))
+		fmt.Fprintf(&b, "[%d]", r.Intn(5))
+		if r.Chance(35) {
+			fmt.Fprintf(&b, "[%d]", r.Intn(3))
+		}
+		for j := 1 + r.Intn(2); j > 0; j-- {
+			b.WriteString("." + Pick(r, []string{"a", "x", "k"}))
+			if r.Chance(20) {
+				fmt.Fprintf(&b, "[%d]", r.Intn(3))
+			}
+		}
+		b.WriteByte('=')
+		parts = append(parts, b.String())
+	}
 	return strings.Join(parts, ",")
 }
 
@@ -449,8 +467,8 @@ func genDest(r *Rng) map[string]any {
 		return map[string]any{}
 	}
 	d := genTree(r, 0, []string{"a", "b", "c", "ab"})
-	if r.Chance(30) {
-		d[Pick(r, []string{"a", "b", "c"})] = []any{"l0", map[string]any{"a": "in"}, []any{"n"}, nil}
+	if r.Chance(35) {
+		d[Pick(r, []string{"a", "b", "c"})] = []any{"l0", map[string]any{"a": "in"}, []any{"n", map[string]any{"k": "v"}}, nil, []any{}}
 	}
 	return d
 }
